@@ -155,6 +155,12 @@ def heat(job, kind, mode, tier):
         i = dict(f, kind=kind, mode=mode, N=3, basis="weight")
         m, cond, pz = realrun.process(i)
         job.validated("C03 run %s %s" % (kind, mode), len(m.feed_evaporation_heat) == 3)
+    # the lifted runs treat the latent heat as HVAP_i(T) whichever equation the component's vapour pressure follows; that the models
+    # take it per kilogram for a Frost-type component too is evaluated on the real code (labelled concrete points)
+    if mode != "ppres" or tier == "thorough":
+        f = dict(realrun.proc_fallback(mode)[0], kind=kind, mode=mode, N=3, basis="weight", frost=1)
+        job.refute_concretely("C03/frost_component/%s/%s" % (proc.SHORT[kind], mode), R_, f)
+        job.refute_concretely("C03/frost_component/%s/%s/twin" % (proc.SHORT[kind], mode), "vf.props.C03:concrete_twin", f)
 
 
 def twin(job, family, mode, tier):
